@@ -238,3 +238,20 @@ pub fn drop_chunks<T: Clone>(steps: &[T]) -> Vec<Vec<T>> {
     }
     out
 }
+
+/// Directory this machinery lives in (the `check` script exports it; /verif unless a scratch copy runs).
+pub fn verif_root() -> String {
+    match std::env::var("VERIF_ROOT") {
+        Ok(d) if !d.is_empty() => d,
+        _ => "/verif".to_string(),
+    }
+}
+
+/// Working tree of googlefonts/fontations the binary was built against (only the seeded-change
+/// regression, which builds against a scratch worktree, sets VERIF_REPO).
+pub fn repo_root() -> String {
+    match std::env::var("VERIF_REPO") {
+        Ok(d) if !d.is_empty() => d,
+        _ => "/repo".to_string(),
+    }
+}
